@@ -75,6 +75,14 @@ Theorem C06_read_written : forall lm p w fname d, classes_ok p = true -> text_cl
                                      d_models := d_models d; d_aliases := d_aliases d; d_nodes := d_nodes d |}.
 Proof. exact read_written. Qed.
 
+(* "every identifier resolving through the document's own namespace table to the same (URI, identifier) as in the graph" *)
+Theorem C06_identifier_resolution : forall p k refs r m, indices_ok p -> k < length (p_namespaces p) -> In r (p_nodes p) ->
+  w_lookup p k (w_in_use p k refs) (nr_nodeid r) = Some m ->
+  nid_type m = nid_type (nr_nodeid r) /\ nid_value m = nid_value (nr_nodeid r) /\
+  nth (Z.to_nat (nid_ns m)) (map (fun i : Z => nth (Z.to_nat i) (w_newl (p_namespaces p) k) []) (w_in_use p k refs)) []
+  = nth (Z.to_nat (nid_ns (nr_nodeid r))) (p_namespaces p) [].
+Proof. exact identifier_resolution. Qed.
+
 Print Assumptions C06_refs_all.
 Print Assumptions C06_refs_filtered.
 Print Assumptions C06_unknown_namespace.
@@ -86,3 +94,4 @@ Print Assumptions C06_regular_decidable.
 Print Assumptions C06_reference_elements.
 Print Assumptions C06_references_written_once.
 Print Assumptions C06_read_written.
+Print Assumptions C06_identifier_resolution.
